@@ -63,7 +63,9 @@ func (s *Service) handleConnection(socket *websocket.Conn) {
 	}
 
 	// now add the new connected client
+	s.tablesMtx.Lock()
 	s.clients = append(s.clients, client)
+	s.tablesMtx.Unlock()
 
 	// dispatch incoming events
 	s.routine(client)
@@ -187,15 +189,18 @@ func (s *Service) dispatch(response map[string]map[string]any, client *ClientSer
 			return
 		}
 
+		as.service = s
+
 		// check if that agent name is already registered.
+		s.tablesMtx.Lock()
 		if s.AgentExist(as.Name) {
+			s.tablesMtx.Unlock()
 			logger.Error(fmt.Sprintf("Service agent \"%v\"already registered ", as.Name))
 			return
 		}
 
-		as.service = s
-
 		s.Agents = append(s.Agents, as)
+		s.tablesMtx.Unlock()
 
 		logger.Info(fmt.Sprintf("%v registered a new agent %v", "["+colors.BoldWhite("SERVICE")+"]", "[Name: "+colors.Blue(as.Name)+"]"))
 
@@ -515,7 +520,14 @@ func (s *Service) dispatch(response map[string]map[string]any, client *ClientSer
 
 				listenerService.client = client
 
-				if !s.ListenerExist(listenerService.Name) {
+				s.tablesMtx.Lock()
+				known := s.ListenerExist(listenerService.Name)
+				if !known {
+					s.Listeners = append(s.Listeners, listenerService)
+				}
+				s.tablesMtx.Unlock()
+
+				if !known {
 					s.ListenerAdd(listenerService)
 				} else {
 					logger.Error(fmt.Sprintf("Service listener already exist %v", listenerService.Name))
@@ -717,6 +729,7 @@ func (s *Service) ClientClose(client *ClientService) {
 	}
 
 	// remove every agent type this connection registered
+	s.tablesMtx.Lock()
 	var Agents []*AgentService
 	for _, a := range s.Agents {
 		if a != nil && a.client == client {
@@ -737,6 +750,7 @@ func (s *Service) ClientClose(client *ClientService) {
 		Listeners = append(Listeners, l)
 	}
 	s.Listeners = Listeners
+	s.tablesMtx.Unlock()
 
 	// remove the external c2 listeners and endpoints it started
 	s.Teamserver.ListenerServiceExc2RemoveAll(client)
@@ -758,12 +772,14 @@ func (s *Service) ClientClose(client *ClientService) {
 	}
 
 	// remove from list
+	s.tablesMtx.Lock()
 	for i := range s.clients {
 		if s.clients[i] == client {
-			s.clients = append(s.clients[:i], s.clients[i+1:]...)
+			s.clients = append(s.clients[:i:i], s.clients[i+1:]...)
 			break
 		}
 	}
+	s.tablesMtx.Unlock()
 
 }
 
@@ -782,8 +798,6 @@ func (s *Service) ListenerExist(Name string) bool {
 func (s *Service) ListenerAdd(listener *ListenerService) {
 	logger.Info(fmt.Sprintf("%v registered a new listener %v %v", "["+colors.BoldWhite("SERVICE")+"]", "[Name: "+colors.Blue(listener.Name)+"]", "[Agent: "+colors.Blue(listener.Agent)+"]"))
 	if listener != nil {
-		s.Listeners = append(s.Listeners, listener)
-
 		pk := events.Service.ListenerRegister(listener.Json())
 		s.Teamserver.EventAppend(pk)
 		s.Teamserver.EventBroadcast("", pk)
